@@ -86,6 +86,28 @@ def label_rows(x, p):
 
 
 def build_game(x, p):
+    if p.get('trimmed'):
+        # .p8 -> .p8.png conversion of a cart as PICO-8 saves it: the solver
+        # chooses how many rows of each section the .p8 file holds
+        from pico8.game.formatter.p8 import P8Formatter
+        from props.p8text import trimmed_text, REGION
+        counts = {}
+        for sec in p['trimmed']:
+            tot = REGION[sec][0] // REGION[sec][1]
+            counts[sec] = x.choice('rows_' + sec, [None, 0, 1, tot - 1, tot])
+        text, _ = trimmed_text(counts, code=b'x=1 -- code\ny=2\n')
+        g = P8Formatter.from_file(hx.MemStream(text), filename='x.p8')
+        for name, lo, hi, width in SECS:
+            sec = getattr(g, name)
+            x.check('region %s has its full size' % name,
+                    len(sec._data) == hi - lo)
+            if len(sec._data) != hi - lo:
+                return None
+            for r in p.get('rows', {}).get(name, []):
+                # make the watched rows symbolic on top of the loaded cart
+                sec._data[r * width:(r + 1) * width] = x.bytearray(
+                    '%s%d' % (name, r), width)
+        return g
     g = Game.make_empty_game(filename='x.p8.png')
     n = p.get('ncode', 0)
     body = p.get('body', 'x=1\n').encode('latin-1')
@@ -336,6 +358,16 @@ HARNESSES = [
                       dict(Q, ncode=2, body='x=1\n' * 30, rows={},
                            label_px=[5], _budget=1800),
                       dict(Q, ncode=0, body='', rows={}, label_px=[])]),
+    # .p8 (as saved by PICO-8, sections trimmed) -> .p8.png -> read back
+    Harness('convert', roundtrip,
+            quick=[dict(Q, trimmed=['gfx', 'music'],
+                        rows={'map': [0], 'sfx': [63]}, label_px=[0x2000]),
+                   dict(Q, trimmed=['gff', 'map'],
+                        rows={'music': [0], 'gff': [1]}, label_px=[0x3100])],
+            thorough=[dict(Q, trimmed=['gfx', 'gff', 'map', 'music'],
+                           rows={'map': [0], 'gff': [0], 'music': [0],
+                                 'sfx': [0]}, label_px=[0x2000],
+                           _budget=1800)]),
     Harness('label_source', label_source, quick=[Q]),
     Harness('fit', fit,
             quick=[dict(Q, n=n, clen=c) for n, c in (
